@@ -19,6 +19,10 @@ HERE = Path(__file__).resolve().parent
 
 PRELUDE = ("From Coq Require Import List Bool Arith.\nFrom V.C07 Require Import ModelBase ModelCall ModelDfc ModelSer GenFuncTy.\n"
            "Import ListNotations.\n")
+# the write-back model does not depend on the generated file: it must stay evaluable when the
+# translator fails closed, so that the failing-input search can still run
+PRELUDE_WB = ("From Coq Require Import List Bool Arith.\nFrom V.C07 Require Import ModelBase ModelCall ModelDfc ModelSer.\n"
+              "Import ListNotations.\n")
 
 
 def generate(ctx):
@@ -81,7 +85,7 @@ def model_eval(ctx, jobs):
     chunks = [jobs[i:i + 120] for i in range(0, len(jobs), 120)]
     files = {}
     for ci, ch in enumerate(chunks):
-        body = [PRELUDE, "Definition results : list (list (list nat)) := ["]
+        body = [PRELUDE_WB, "Definition results : list (list (list nat)) := ["]
         body.append(";\n".join(t for _, t in ch) + "].")
         body.append("Eval vm_compute in results.")
         files[f"wb{ci}"] = "\n".join(body)
@@ -212,15 +216,24 @@ def replay_cmd(case_id):
 
 def run(ctx):
     import gen_cases
-    generate(ctx)
-    info = ctx.coq_props()
     notes = ctx.notes
+    tr_err = None
+    try:
+        generate(ctx)
+    except vlib.TranslatorError as e:
+        # fail closed: the theorems are no longer about the current source.  Keep going: the
+        # hand-written model and the implementation can still be compared to find a concrete input.
+        tr_err = str(e)
+        notes.append(f"translator failed closed: {tr_err}")
+    info = ctx.coq_props()
+    if tr_err:
+        info.update(ok=False, failed=f"translator: {tr_err}", discharged=0, log=info.get("log", "") + "\nError: " + tr_err)
     # ---- translator validation ------------------------------------------------------
     r = vlib.rng(ctx.seed, "C07-tv")
     tvc = tv_cases(r, 150 if ctx.quick else 450)
     tv_impl = json.loads(ctx.impl("impl_functy.py", tvc))
     tv_dis = 0
-    gen_ok = (vlib.COQ / "C07" / "GenFuncTy.vo").exists()
+    gen_ok = (vlib.COQ / "C07" / "GenFuncTy.vo").exists() and not tr_err
     tv_model = None
     if gen_ok:
         try:
@@ -330,7 +343,7 @@ def run(ctx):
                         "coq_error": vlib.CoqResult(False, info["log"]).error_excerpt(),
                         "replay": "PYTHONPATH=/verif/tools:<repo>/guppylang/src:<repo>/guppylang-internals/src /venv/bin/python /verif/props/C07/impl_functy.py <<< '[case]'"})
         elif wb_dis == 0 and tv_dis == 0:
-            ctx.report("proof-broken:" + str(info["failed"]), "proof-broken", str(info["failed"]),
+            ctx.report(("translator:" + tr_err) if tr_err else "proof-broken:" + str(info["failed"]), "proof-broken", str(info["failed"]),
                        {"coq_error": vlib.CoqResult(False, info["log"]).error_excerpt(),
                         "searched": {"row_cases": len(tvc), "programs": len(cases)}}, found_input=False)
     elif spec_fail:
